@@ -242,6 +242,49 @@ def c_identity(ex, st, callee, a):
     return [(None, v)]
 
 
+# ----------------------------------------------------------------------------- interior mutability: RefCell / Cell as a one-field aggregate stored in place
+def _inner_ref(st, r):
+    """&RefCell<T> -> reference to the value inside (the guard types Ref / RefMut are that reference; borrow flags are not modelled: a double borrow panic is outside the claim)"""
+    while True:
+        cur = get_path(st.store[r[1]], r[2])
+        if isinstance(cur, tuple) and cur[0] == 'ref': r = cur
+        else: break
+    return ('ref', r[1], r[2] + (('f', 0),))
+
+
+@contract(r'^(?:std::cell::|core::cell::)?RefCell::<.*>::new$', r'^(?:std::cell::|core::cell::)?Cell::<.*>::new$')
+def c_refcell_new(ex, st, callee, a): return [(None, adt('RefCell', None, a[0]))]
+
+
+@contract(r'^(?:std::cell::|core::cell::)?RefCell::<.*>::(borrow|borrow_mut|get_mut|try_borrow_unguarded)$', r'^(?:std::cell::|core::cell::)?Cell::<.*>::get_mut$')
+def c_refcell_borrow(ex, st, callee, a): return [(None, _inner_ref(st, a[0]))]
+
+
+@contract(r'^<(?:std::cell::|core::cell::)?Ref(Mut)?<.*> as Deref(Mut)?>::deref(_mut)?$')
+def c_ref_guard_deref(ex, st, callee, a):
+    v = a[0]
+    if isinstance(v, tuple) and v[0] == 'ref':
+        cur = get_path(st.store[v[1]], v[2])
+        if isinstance(cur, tuple) and cur[0] == 'ref': return [(None, cur)]      # &Ref<T> -> the guard, which is the reference itself
+    return [(None, v)]
+
+
+@contract(r'^(?:std::cell::|core::cell::)?RefCell::<.*>::replace$', r'^(?:std::cell::|core::cell::)?Cell::<.*>::replace$')
+def c_refcell_replace(ex, st, callee, a):
+    r = _inner_ref(st, a[0]); old = get_path(st.store[r[1]], r[2]); st.store[r[1]] = set_path(st.store[r[1]], r[2], a[1]); return [(None, old)]
+
+
+@contract(r'^(?:std::cell::|core::cell::)?Cell::<.*>::set$')
+def c_cell_set(ex, st, callee, a):
+    r = _inner_ref(st, a[0]); st.store[r[1]] = set_path(st.store[r[1]], r[2], a[1]); return [(None, UNIT)]
+
+
+@contract(r'^(?:std::cell::|core::cell::)?Cell::<.*>::get$', r'^(?:std::cell::|core::cell::)?RefCell::<.*>::into_inner$')
+def c_cell_get(ex, st, callee, a):
+    if 'into_inner' in callee: return [(None, deref(st, a[0])[3][0])]
+    r = _inner_ref(st, a[0]); return [(None, get_path(st.store[r[1]], r[2]))]
+
+
 @contract(r'^<PhantomData<.*> as Clone>::clone$', r'^<&str as Clone>::clone$', r'^<&\[u8\] as Clone>::clone$', r'^<(?:std::option::)?Option<.*> as Clone>::clone$', r'^<(u8|u16|u32|u64|usize|bool) as Clone>::clone$')
 def c_clone_plain(ex, st, callee, a):
     """Clone of Copy / std value types: the value behind the reference (Option<T> for the crate's Copy newtypes: a bitwise copy)"""
@@ -804,7 +847,7 @@ def c_generic_as_ref_bytes(ex, st, callee, a):
 def c_b64_decode(ex, st, callee, a):
     s_ = as_str(st, a[1])
     if not _engine(st, a[0]):
-        # unknown engine configuration: accepts at least the canonical encoding, nothing is known about what else it accepts
+        # unknown engine configuration: nothing is known about what it accepts; what it accepts of a canonical encoding decodes to the encoded bytes
         st.log.append(('b64dec', s_, b64dec_lenient(s_)))
         return [(b64dec_lenient_ok(s_), ok(b64dec_lenient(s_))), (Not(b64dec_lenient_ok(s_)), err(adt('DecodeError', None)))]
     if is_app(s_) and s_.decl().name() == 'b64':       # decode(b64(x)) = Ok(x): inverse contract applied directly
@@ -1152,7 +1195,9 @@ def instantiate(assertions, honest=None, secret_keys=(), rounds=2):
         for t in apps.get('b64dec_lenient', []) + apps.get('b64dec_lenient_ok', []):
             x = t.arg(0)
             add(Length(b64dec_lenient(x)) <= Length(x))
-            if is_app(x) and x.decl().name() == 'b64': add(And(b64dec_lenient_ok(x), b64dec_lenient(x) == x.arg(0)))
+            # an engine configuration the model does not know: whether it takes the canonical unpadded text at all is unknown (a padding-required engine does not);
+            # if it does, it yields the encoded bytes
+            if is_app(x) and x.decl().name() == 'b64': add(Implies(b64dec_lenient_ok(x), b64dec_lenient(x) == x.arg(0)))
         for t in apps.get('b64dec', []):
             add(Length(t) <= Length(t.arg(0)))
             add(Implies(b64dec_ok(t.arg(0)), b64(t) == t.arg(0)))
